@@ -97,6 +97,7 @@ names = [
  ('pv_inc_is_interpreted_source', "... and the interpreted pvInc (`if (bucketIter != bounds(bucketIndex).GetBegin()) ptReset(bucketIndex, prev(bucketIter)); else pvMove();`) equals the hand model's pv_inc.  C11_iterator_traversal_once, C11_traversal_once (through the machine) and the re-positioning inside Remove(iter) are therefore about the interpreted source."),
  ('it_next_is_interpreted_source', "operator++ of the model (it_next, the `++iter` of Remove(filter)) is the interpreted pvInc.  (operator++'s own wrapper `if (ptIsMovable()) pvInc(); else this = end` is not interpreted: iterators of the model are always movable.)"),
  ('it_begin_is_interpreted_source', "GetBegin: the statements of HashSet::GetBegin (`if (mCount == 0) return ConstIterator(); return ConstIteratorProxy(first table, 0, bounds(0).GetEnd(), version)`) and of the protected iterator constructor (member initialisers + `pvInc();`) interpreted = the hand model's it_begin -- the `iter = GetBegin()` of Remove(filter) and the start of every traversal."),
+ ('remove_at_is_interpreted_source', """Remove(iter) rests on the source.  The statements of HashSet::Remove(ConstIterator) and HashSet::pvRemove are read off the clang AST on every run (astfacts.py -> Gen_RelocFacts.remove_iter_stmts / pv_remove_stmts) and interpreted statement by statement on the model state (RemoveAtInterp.v: the two MOMO_CHECKs, position / iterator / index bindings, `buckets = pvFindBuckets(bucketIndex, bucketIter)` = find_buckets, `bucket.Remove(..)` on bucket bucketIndex of THAT generation = tremove, --mCount, IncVersion, the returned iterator built on `buckets` whose constructor runs pvInc; each statement requires the names it uses to be bound).  (1) the interpretation of the CURRENT source equals the removal step of the hand model's remif; (2) the loop body of Remove(filter) is: filter true -> this interpreted Remove(iter), else the interpreted ++iter.  With C11_pv_inc_is_interpreted_source / C11_it_begin_is_interpreted_source no hand-written control flow is left in Remove(filter); what remains by contract is Bucket::Remove (tremove; byte level: GenFull / GenFullP4) and that it returns the iterator at the hole."""),
  ('remove_filter_is_interpreted_source', """Remove(filter) rests on the source.  The statements of HashSet::Remove(const ItemFilter&) are read off the clang AST on every run (astfacts.py -> Gen_RelocFacts.remove_filter_stmts: `initCount = GetCount(); iter = GetBegin(); while (!!iter) { if (itemFilter( *iter )) iter = Remove(iter); else ++iter; } return initCount - GetCount();`) and interpreted on the model state (RemoveIfInterp.v: the loop runs until the end iterator, the filter is applied to the item under the iterator, Remove(iter) = the modelled pvRemove -- generation through find_buckets, tremove, count - 1, iterator re-created at the hole and pvInc'ed --, ++iter = pv_inc).  The interpretation of the CURRENT source equals the hand model's hremove_if for every state and filter; C11_remove_if_any_state / C11_inv_step / C11_history_refines_set are theorems about hremove_if.  Hand-modelled primitives: Remove(iter), operator++ / GetBegin (iterator machine).  Swapping the branches, dropping the else, a different loop condition or return expression changes the generated list and breaks this proof."""),
  ('reloc_gens_is_interpreted_source', """AST facts feeding the model.  The statements of HashSet::pvRelocateItems(Buckets ptr) are read off the clang AST on every run (props/C11/astfacts.py -> Gen_RelocFacts.worker_stmts, syntax RelocSyntax.cstmt) and INTERPRETED on the model's chain of tables (GenFacts.interp_worker: `nextBuckets = buckets->GetNextBuckets()`, `if (nextBuckets != nullptr) { pvRelocateItems(nextBuckets); buckets->ExtractNextBuckets(); }` = recursive activation on the older chain, unlinked only after a normal return, the item loop = reloc_buckets (skeleton: Gen_HashSetMove), `buckets->Destroy` = the table disappears; a status other than MOk is an exception in flight and skips the remaining statements, there being no handler).  The interpretation of the CURRENT source equals the hand model's reloc_gens for every chain, newest table and failure schedule -- so every theorem above about interrupted migrations is about the interpreted statements: oldest generation first, the first failure leaves every table on the recursion path linked and not destroyed."""),
  ('relocate_is_interpreted_source', """... and the wrapper pvRelocateItems() (Gen_RelocFacts.wrapper_stmts: `nextBuckets = mBuckets->GetNextBuckets(); try { pvRelocateItems(nextBuckets); mBuckets->ExtractNextBuckets(); } catch (...) { }`), interpreted with try / catch-all semantics (an MStop raised inside the try is swallowed by the EMPTY catch-all handler, statements after the throw point inside the try are skipped, MTerm = std::terminate out of the noexcept worker), equals the hand model's `relocate` on every chain with at least two tables -- the function through which hadd / hreserve (and with them all theorems on growth failures) use the migration.  Moving ExtractNextBuckets out of the try, a non-empty handler, or any statement the interpreter does not know breaks this proof."""),
@@ -126,7 +127,7 @@ names = [
  ('ex_refused_until_full', "non-vacuity: with every growth refused a 2-bucket Open2N2<3> table accepts insertions up to 6 items through the fallback path, then reports full."),
 ]
 hdr = '''From Coq Require Import ZArith List Bool Permutation.
-From C11 Require Import GrowModel GenTie GenGrow GenFull GenFullP4 GenMove GenSame GenFacts GenFind GenClear TableRel RemoveIfInterp IterInterp.
+From C11 Require Import GrowModel GenTie GenGrow GenFull GenFullP4 GenMove GenSame GenFacts GenFind GenClear TableRel RemoveIfInterp RemoveAtInterp IterInterp.
 Import ListNotations.
 Local Open Scope Z_scope.
 Set Printing Width 130.
@@ -145,7 +146,7 @@ res = '''(* Property C11 -- theorems only.  Each is closed by `exact <lemma>` an
    UpdateMaxProbe never under-approximates, the growth policy does not shrink / probing reaches every bucket,
    CalcCapacity <= physical size); they are proved below for the kinds used by the extracted model. *)
 From Coq Require Import ZArith List Bool Permutation.
-From C11 Require Import GrowModel GenTie GenGrow GenFull GenFullP4 GenMove GenSame GenFacts GenFind GenClear TableRel RemoveIfInterp IterInterp.
+From C11 Require Import GrowModel GenTie GenGrow GenFull GenFullP4 GenMove GenSame GenFacts GenFind GenClear TableRel RemoveIfInterp RemoveAtInterp IterInterp.
 Import ListNotations.
 Local Open Scope Z_scope.
 
